@@ -1,10 +1,446 @@
-"""Verus side: history lemma generated from contracts/ops.toml and layout lemmas on statements
-extracted verbatim from /repo/src (DESIGN §4.5/§4.6)."""
+"""Verus side: (a) layout lemmas on statements extracted VERBATIM from /repo/src on every run
+(DESIGN §4.6) and (b) the history-induction lemma generated from contracts/ops.toml (DESIGN §4.5).
+A Verus failure alone is never an alarm (exit 2): Verus gives no counterexample; the paired Kani
+obligations carry the counterexamples."""
 import os, re
 import vlib
 from vlib import Undecided, VERIF, REPO
 
+LAYOUT_PROPS = ("C05", "C11", "C12")
+HISTORY_PROPS = ("C01", "C04")
+
+PREAMBLE = r'''// GENERATED on every run by tools/verus_tools.py — do not edit.
+use vstd::prelude::*;
+use vstd::layout::*;
+use core::alloc::Layout;
+use core::alloc::LayoutError;
+
+verus! {
+
+#[verifier::external_type_specification]
+#[verifier::external_body]
+pub struct ExLayout(Layout);
+
+#[verifier::external_type_specification]
+#[verifier::external_body]
+pub struct ExLayoutError(LayoutError);
+
+pub uninterp spec fn lsize(l: Layout) -> nat;
+pub uninterp spec fn lalign(l: Layout) -> nat;
+pub uninterp spec fn val_size<T: ?Sized>(v: &T) -> nat;
+pub uninterp spec fn val_align<T: ?Sized>(v: &T) -> nat;
+
+pub open spec fn round_up(x: nat, a: nat) -> nat
+    recommends a > 0
+{
+    ((x + a - 1) as nat / a) * a
+}
+pub open spec fn max_nat(a: nat, b: nat) -> nat { if a >= b { a } else { b } }
+/// Rust alignments are powers of two; all this arithmetic needs is: a > 8, or a divides 8.
+pub open spec fn align_ok(a: nat) -> bool { a > 8 || a == 1 || a == 2 || a == 4 || a == 8 }
+
+pub open spec fn lvalid(l: Layout) -> bool {
+    lalign(l) > 0 && round_up(lsize(l), lalign(l)) <= isize::MAX as nat
+}
+
+// ---- ASSUMED specifications of core::alloc::Layout (transcribed from the std documentation) ----
+pub assume_specification[ Layout::size ](l: &Layout) -> (r: usize)
+    ensures r as nat == lsize(*l);
+pub assume_specification[ Layout::align ](l: &Layout) -> (r: usize)
+    ensures r as nat == lalign(*l);
+pub assume_specification[ Layout::pad_to_align ](l: &Layout) -> (r: Layout)
+    requires lvalid(*l),
+    ensures lalign(r) == lalign(*l), lsize(r) == round_up(lsize(*l), lalign(*l));
+pub assume_specification[ Layout::extend ](l: &Layout, next: Layout) -> (r: Result<(Layout, usize), LayoutError>)
+    requires lvalid(*l), lvalid(next),
+    ensures
+        ({
+            let new_align = max_nat(lalign(*l), lalign(next));
+            let off = round_up(lsize(*l), lalign(next));
+            let new_size = off + lsize(next);
+            if round_up(new_size, new_align) <= isize::MAX as nat {
+                r.is_ok() && lalign(r.unwrap().0) == new_align && lsize(r.unwrap().0) == new_size && r.unwrap().1 as nat == off
+            } else {
+                r.is_err()
+            }
+        });
+pub assume_specification<T>[ Layout::new::<T> ]() -> (r: Layout)
+    ensures lsize(r) == size_of::<T>(), lalign(r) == align_of::<T>(), lvalid(r);
+pub assume_specification<T: ?Sized>[ Layout::for_value::<T> ](t: &T) -> (r: Layout)
+    ensures lsize(r) == val_size(t), lalign(r) == val_align(t), lvalid(r);
+pub assume_specification<T>[ Layout::array::<T> ](n: usize) -> (r: Result<Layout, LayoutError>)
+    ensures
+        if round_up(n as nat * size_of::<T>(), align_of::<T>()) <= isize::MAX as nat {
+            r.is_ok() && lsize(r.unwrap()) == n as nat * size_of::<T>() && lalign(r.unwrap()) == align_of::<T>()
+        } else { r.is_err() };
+
+// ---- stand-ins for the crate's own types that occur in the extracted statements ----
+pub mod atomic {
+    use vstd::prelude::*;
+    #[verifier::external_body]
+    pub struct AtomicUsize { v: usize }
+}
+#[verifier::external_body]
+#[verifier::reject_recursive_types(T)]
+pub struct ArcInner<T: ?Sized> { count: usize, data: T }
+// ASSUMED: x86-64: the atomic count is 8 bytes, 8-aligned; repr(C) { count, () } likewise
+pub broadcast axiom fn count_word_layout()
+    ensures #[trigger] size_of::<atomic::AtomicUsize>() == 8, #[trigger] align_of::<atomic::AtomicUsize>() == 8,
+            #[trigger] size_of::<ArcInner<()>>() == 8, #[trigger] align_of::<ArcInner<()>>() == 8;
+
+pub proof fn lemma_round_up(x: nat, a: nat)
+    requires a > 0
+    ensures round_up(x, a) >= x, round_up(x, a) < x + a, round_up(x, a) % a == 0,
+{
+    let y = (x + a - 1) as nat;
+    let q = y / a;
+    assert(q * a <= y && y < q * a + a) by (nonlinear_arith)
+        requires q == y / a, a > 0;
+    vstd::arithmetic::div_mod::lemma_mod_multiples_basic(q as int, a as int);
+}
+pub proof fn lemma_round_up_8(a: nat)
+    requires align_ok(a)
+    ensures round_up(8, a) == max_nat(8, a), round_up(8, a) % a == 0,
+{
+    if a > 8 {
+        let y = (8 + a - 1) as nat;
+        assert(y / a == 1) by (nonlinear_arith) requires y == 7 + a, a > 8;
+        assert(round_up(8, a) == a);
+        assert(a % a == 0) by (nonlinear_arith) requires a > 0;
+    } else {
+        assert(round_up(8, 1) == 8) by (compute);
+        assert(round_up(8, 2) == 8) by (compute);
+        assert(round_up(8, 4) == 8) by (compute);
+        assert(round_up(8, 8) == 8) by (compute);
+    }
+}
+
+'''
+
+LAYOUT_TEMPLATE = r'''
+// ---- L1: the block requested by try_allocate_for_layout / allocate_for_layout ------------------
+// free variable of the extracted statement: value_layout.  Dropped: the alloc() call, the closure,
+// the count initialisation and the debug assertion (those are Kani's obligations).
+fn x_try_allocate_for_layout(value_layout: Layout) -> (layout: Layout)
+    requires lvalid(value_layout), align_ok(lalign(value_layout)),
+             lsize(value_layout) + 2 * lalign(value_layout) + 16 <= isize::MAX as nat,
+    ensures
+        lalign(layout) == max_nat(8, lalign(value_layout)),
+        lsize(layout) == round_up((max_nat(8, lalign(value_layout)) + lsize(value_layout)) as nat, max_nat(8, lalign(value_layout))),
+        // fits: count word, padding up to the payload's alignment, the payload
+        lsize(layout) >= max_nat(8, lalign(value_layout)) + lsize(value_layout),
+        // the size is a multiple of the alignment: exactly what Layout::for_value of the repr(C)
+        // struct re-derives when the block is released through Box::from_raw
+        lsize(layout) % lalign(layout) == 0,
+        // the payload offset max(8, align) is a multiple of the payload alignment
+        max_nat(8, lalign(value_layout)) % lalign(value_layout) == 0,
+{
+    broadcast use count_word_layout;
+    proof {
+        lemma_round_up_8(lalign(value_layout));
+        lemma_round_up(8, 8);
+        lemma_round_up((max_nat(8, lalign(value_layout)) + lsize(value_layout)) as nat, max_nat(8, lalign(value_layout)));
+    }
+    /* ---- verbatim from src/arc.rs fn try_allocate_for_layout ---- */
+    @TRY_ALLOCATE@
+    layout
+}
+
+fn x_allocate_for_layout(value_layout: Layout) -> (layout: Layout)
+    requires lvalid(value_layout), align_ok(lalign(value_layout)),
+             lsize(value_layout) + 2 * lalign(value_layout) + 16 <= isize::MAX as nat,
+    ensures
+        lalign(layout) == max_nat(8, lalign(value_layout)),
+        lsize(layout) == round_up((max_nat(8, lalign(value_layout)) + lsize(value_layout)) as nat, max_nat(8, lalign(value_layout))),
+{
+    broadcast use count_word_layout;
+    proof {
+        lemma_round_up_8(lalign(value_layout));
+        lemma_round_up(8, 8);
+        lemma_round_up((max_nat(8, lalign(value_layout)) + lsize(value_layout)) as nat, max_nat(8, lalign(value_layout)));
+    }
+    /* ---- verbatim from src/arc.rs fn allocate_for_layout (layout handed to handle_alloc_error) ---- */
+    @ALLOCATE@
+    layout
+}
+
+// ---- L1b: the value layout computed by allocate_for_header_and_slice, for ALL H, T, len --------
+pub open spec fn hs_av<H, T>() -> nat { max_nat(align_of::<H>(), align_of::<T>()) }
+// repr(C) { header: H, slice: [T; len] }: slice at round_up(size H, align T), padded to the struct's alignment
+pub open spec fn hs_size<H, T>(len: nat) -> nat {
+    round_up((round_up(size_of::<H>(), align_of::<T>()) + len * size_of::<T>()) as nat, hs_av::<H, T>())
+}
+pub proof fn lemma_pad_idem(s: nat, a: nat)
+    requires a > 0, s % a == 0
+    ensures round_up(s, a) == s
+{
+    let k = s / a;
+    vstd::arithmetic::div_mod::lemma_fundamental_div_mod(s as int, a as int);
+    assert(s == a * k);
+    assert(s + a - 1 == k * a + (a - 1)) by (nonlinear_arith) requires s == a * k;
+    vstd::arithmetic::div_mod::lemma_fundamental_div_mod_converse((s + a - 1) as int, a as int, k as int, (a - 1) as int);
+    assert(k * a == s) by (nonlinear_arith) requires s == a * k;
+}
+fn x_allocate_for_header_and_slice<H, T>(len: usize) -> (layout: Layout)
+    requires
+        align_of::<H>() > 0, align_of::<T>() > 0,
+        size_of::<H>() + (len as nat) * size_of::<T>() + 2 * align_of::<H>() + 2 * align_of::<T>() <= isize::MAX as nat,
+    ensures
+        lalign(layout) == hs_av::<H, T>(),
+        lsize(layout) == hs_size::<H, T>(len as nat),
+        lsize(layout) >= size_of::<H>() + len as nat * size_of::<T>(),
+        lsize(layout) % lalign(layout) == 0,
+        lvalid(layout),
+{
+    proof {
+        lemma_round_up(size_of::<H>(), align_of::<H>());
+        lemma_round_up(len as nat * size_of::<T>(), align_of::<T>());
+        lemma_round_up(size_of::<H>(), align_of::<T>());
+        lemma_round_up((round_up(size_of::<H>(), align_of::<T>()) + len as nat * size_of::<T>()) as nat, hs_av::<H, T>());
+        // padding an already padded size changes nothing (lvalid of the result)
+        lemma_pad_idem(hs_size::<H, T>(len as nat), hs_av::<H, T>());
+    }
+    /* ---- verbatim from src/arc.rs fn allocate_for_header_and_slice ---- */
+    @ALLOCATE_HS@
+    layout
+}
+
+// ---- L2: ArcInner::offset_of_data, for every (possibly unsized) payload --------------------------
+unsafe fn x_offset_of_data<T: ?Sized>(value: &T) -> (offset: usize)
+    requires align_ok(val_align(value)), val_size(value) + 2 * val_align(value) + 16 <= isize::MAX as nat,
+    ensures
+        // == vrt::spec_off on the Kani side: where as_ptr / Deref / from_raw place the payload
+        offset as nat == max_nat(8, val_align(value)),
+        offset as nat % val_align(value) == 0,
+        offset >= 8,   // hence (with 8-aligned blocks) bit 0 of the payload address is free: C12
+{
+    broadcast use count_word_layout;
+    proof {
+        lemma_round_up_8(val_align(value));
+        lemma_round_up(8, 8);
+        lemma_round_up((max_nat(8, val_align(value)) + val_size(value)) as nat, max_nat(8, val_align(value)));
+    }
+    /* ---- verbatim from src/arc.rs fn offset_of_data (the `let value = &*value;` re-borrow is dropped) ---- */
+    @OFFSET_OF_DATA@
+    offset
+}
+
+// ---- L3: the whole block for a header+slice payload fits count, header and len elements ---------
+pub proof fn lemma_block_fits(sh: nat, ah: nat, st: nat, at: nat, len: nat)
+    requires ah > 0, at > 0, align_ok(max_nat(ah, at)),
+    ensures ({
+        let av = max_nat(ah, at);
+        let value = round_up((round_up(sh, at) + len * st) as nat, av);
+        let total = round_up((max_nat(8, av) + value) as nat, max_nat(8, av));
+        total >= 8 + sh + len * st && total % max_nat(8, av) == 0 && max_nat(8, av) % av == 0
+    }),
+{
+    let av = max_nat(ah, at);
+    lemma_round_up(sh, at);
+    lemma_round_up((round_up(sh, at) + len * st) as nat, av);
+    lemma_round_up((max_nat(8, av) + round_up((round_up(sh, at) + len * st) as nat, av)) as nat, max_nat(8, av));
+    lemma_round_up_8(av);
+}
+
+} // verus!
+fn main() {}
+'''
+
+
+def _fn_body(src, name, which=1):
+    """text from the n-th `fn name` up to the next line starting a new fn at the same or lower indent"""
+    ms = [m for m in re.finditer(r"^[ \t]*(?:pub(?:\([^)]*\))?\s+)?(?:unsafe\s+)?fn\s+%s\b" % re.escape(name), src, re.M)]
+    if len(ms) < which:
+        raise Undecided("verus extraction: `fn %s` #%d not found" % (name, which))
+    start = ms[which - 1].start()
+    nxt = re.search(r"^[ \t]*(?:///|#\[|pub(?:\([^)]*\))?\s+(?:unsafe\s+)?fn|(?:unsafe\s+)?fn|impl\b|\}\s*$\n^impl)", src[ms[which - 1].end():], re.M)
+    # crude but sufficient: stop at the next `fn ` keyword
+    nf = re.search(r"\bfn\s+\w+", src[ms[which - 1].end():])
+    end = ms[which - 1].end() + (nf.start() if nf else len(src))
+    return src[start:end]
+
+
+def _stmt(body, pattern, what):
+    m = re.search(pattern, body, re.S)
+    if not m:
+        raise Undecided("verus extraction: statement %s no longer found" % what)
+    return m.group(0)
+
+
+def extract_layout():
+    arc = open(os.path.join(REPO, "src", "arc.rs")).read()
+    arc = arc.split("#[cfg(test)]\nmod tests")[0]
+    let_layout = r"let layout = [^;]*;"
+    parts = {
+        "@TRY_ALLOCATE@": _stmt(_fn_body(arc, "try_allocate_for_layout"), let_layout, "`let layout` in try_allocate_for_layout"),
+        "@ALLOCATE@": _stmt(_fn_body(arc, "allocate_for_layout"), let_layout, "`let layout` in allocate_for_layout"),
+        "@ALLOCATE_HS@": _stmt(_fn_body(arc, "allocate_for_header_and_slice"), let_layout, "`let layout` in allocate_for_header_and_slice"),
+    }
+    ob = _fn_body(arc, "offset_of_data")
+    s1 = _stmt(ob, let_layout, "`let layout` in offset_of_data")
+    s2 = _stmt(ob, r"let \(_, offset\) = [^;]*;", "`let (_, offset)` in offset_of_data")
+    parts["@OFFSET_OF_DATA@"] = s1 + "\n    " + s2
+    text = PREAMBLE + LAYOUT_TEMPLATE
+    for k, v in parts.items():
+        text = text.replace(k, v)
+    dropped = ("everything of the four functions except the quoted `let layout = ...;` / `let (_, offset) = ...;` statements: "
+               "the alloc() call, the mem_to_arcinner closure, ptr::write of the count, debug_assert, handle_alloc_error, "
+               "the `let value = &*value;` re-borrow (all covered by the Kani obligations)")
+    assumed = ["assume_specification of Layout::{size,align,new,for_value,array,extend,pad_to_align} (transcribed from std docs)",
+               "size_of/align_of of AtomicUsize and ArcInner<()> == 8 (x86-64, repr(C))",
+               "alignments satisfy align_ok (powers of two)"]
+    return text, parts, dropped, assumed
+
+
+# --------------------------------------------------------------------------------------------
+def parse_ops():
+    """contracts/ops.toml: lines `name = delta  # file fn [ordinal]`"""
+    ops = []
+    p = os.path.join(VERIF, "contracts", "ops.toml")
+    for line in open(p):
+        line = line.strip()
+        if not line or line.startswith("#") or line.startswith("["):
+            continue
+        m = re.match(r'"([^"]+)"\s*=\s*(-?\d+)\s*#\s*(\S+)\s+(\w+)(?:\s+(\d+))?', line)
+        if not m:
+            raise Undecided("ops.toml: cannot parse line: " + line)
+        ops.append(dict(name=m.group(1), delta=int(m.group(2)), file=m.group(3), fn=m.group(4), ordinal=int(m.group(5) or 1)))
+    return ops
+
+
+def check_ops_against_contracts(ops):
+    """every operation of the table has a contract on the anchored function whose clauses carry the
+    declared delta: +1 <-> `+ 1`, -1 <-> `released(`, 0 <-> an unchanged-count/allocator clause."""
+    cs = vlib.all_contracts()
+    problems = []
+    for op in ops:
+        items = [c for c in cs.get(op["file"], []) if c["fn"] == op["fn"] and c["ordinal"] == op["ordinal"]]
+        if not items:
+            problems.append("%s: no contract on %s fn %s#%d" % (op["name"], op["file"], op["fn"], op["ordinal"]))
+            continue
+        text = " ".join(e for _, e in items[0]["clauses"])
+        ok = {1: "+ 1" in text, -1: "released(" in text,
+              0: ("g_same(" in text or "delta0(" in text or "== old(" in text)}[op["delta"]]
+        if not ok:
+            problems.append("%s: contract on %s fn %s does not state delta %+d" % (op["name"], op["file"], op["fn"], op["delta"]))
+    return problems
+
+
+HISTORY_TEMPLATE = r'''// GENERATED on every run by tools/verus_tools.py from contracts/ops.toml — do not edit.
+use vstd::prelude::*;
+verus! {
+
+pub struct St { pub cnt: int, pub owners: int, pub alive: bool, pub dropped: int, pub freed: int }
+
+// one branch per operation of contracts/ops.toml (@NOPS@ operations): the delta its contract declares
+pub open spec fn delta(op: int) -> int {
+@DELTA@
+}
+
+// The contract every operation carries on the real code (Kani proves code ==> this, per operation,
+// for a symbolic count): requires a live block with count >= 1 (the caller holds or borrows an
+// owning handle); the count moves by delta; the payload is destroyed and the block freed exactly
+// when a release takes the count to 0; otherwise payload, liveness and allocator are untouched.
+pub open spec fn step(pre: St, op: int, post: St) -> bool {
+    0 <= op < @NOPS@
+    && pre.alive && pre.cnt >= 1 && pre.owners >= 1
+    && post.owners == pre.owners + delta(op)
+    && post.cnt == pre.cnt + delta(op)
+    && (if delta(op) == -1 && pre.cnt == 1 {
+            !post.alive && post.dropped == pre.dropped + 1 && post.freed == pre.freed + 1
+        } else {
+            post.alive && post.dropped == pre.dropped && post.freed == pre.freed
+        })
+}
+
+pub open spec fn inv(s: St) -> bool {
+    if s.alive { s.cnt == s.owners && s.owners >= 1 && s.dropped == 0 && s.freed == 0 }
+    else { s.owners == 0 && s.dropped == 1 && s.freed == 1 }
+}
+
+pub open spec fn init(s: St) -> bool { s.alive && s.cnt == 1 && s.owners == 1 && s.dropped == 0 && s.freed == 0 }
+
+pub open spec fn history(ss: Seq<St>, ops: Seq<int>) -> bool {
+    ss.len() == ops.len() + 1 && init(ss[0])
+    && forall|i: int| 0 <= i < ops.len() ==> step(ss[i], ops[i], #[trigger] ss[i + 1])
+}
+
+pub proof fn lemma_delta_range(op: int)
+    requires 0 <= op < @NOPS@
+    ensures -1 <= delta(op) <= 1
+{
+}
+
+// every finite history keeps the invariant (induction over the length of the history)
+pub proof fn lemma_history(ss: Seq<St>, ops: Seq<int>, k: int)
+    requires history(ss, ops), 0 <= k < ss.len()
+    ensures inv(ss[k])
+    decreases k
+{
+    if k > 0 {
+        lemma_history(ss, ops, k - 1);
+        assert(step(ss[k - 1], ops[k - 1], ss[k - 1 + 1]));
+        lemma_delta_range(ops[k - 1]);
+    }
+}
+
+// C04: the count reported after any prefix equals the number of owning handles.
+// C01: destroyed and freed at most once; exactly once iff no owner is left; nothing follows the last release.
+pub proof fn lemma_consequences(ss: Seq<St>, ops: Seq<int>, k: int)
+    requires history(ss, ops), 0 <= k < ss.len()
+    ensures
+        ss[k].alive ==> ss[k].cnt == ss[k].owners,
+        ss[k].dropped <= 1 && ss[k].freed <= 1,
+        (ss[k].owners == 0) <==> (ss[k].dropped == 1),
+        (ss[k].owners == 0) <==> (ss[k].freed == 1),
+        !ss[k].alive ==> k == ss.len() - 1,
+{
+    lemma_history(ss, ops, k);
+    if !ss[k].alive && k < ss.len() - 1 {
+        assert(step(ss[k], ops[k], ss[k + 1]));
+    }
+}
+
+} // verus!
+fn main() {}
+'''
+
+
+def gen_history():
+    ops = parse_ops()
+    probs = check_ops_against_contracts(ops)
+    if probs:
+        raise Undecided("ops table and contract sidecars disagree: " + "; ".join(probs))
+    lines = []
+    for i, op in enumerate(ops):
+        kw = "if" if i == 0 else "else if"
+        lines.append("    %s op == %d { %d }   // %s  (%s fn %s)" % (kw, i, op["delta"], op["name"], op["file"], op["fn"]))
+    lines.append("    else { 0 }")
+    text = HISTORY_TEMPLATE.replace("@DELTA@", "\n".join(lines)).replace("@NOPS@", str(len(ops)))
+    return text, ops
+
 
 def run_for(prop, tier, logs):
     """-> list of dict(name, ok, verified, errors, wall, smt_ms, stderr, dropped, assumed)"""
-    return []
+    res = []
+    gen = os.path.join(VERIF, "logs", prop, "verus")
+    os.makedirs(gen, exist_ok=True)
+    if prop in LAYOUT_PROPS:
+        text, parts, dropped, assumed = extract_layout()
+        p = os.path.join(gen, "layout_extracted.rs")
+        open(p, "w").write(text)
+        r = vlib.run_verus(p)
+        r.update(name="layout_extracted.rs (statements verbatim from /repo/src/arc.rs)", dropped=dropped, assumed=assumed,
+                 extracted={k.strip("@"): " ".join(v.split()) for k, v in parts.items()})
+        res.append(r)
+    if prop in HISTORY_PROPS:
+        text, ops = gen_history()
+        p = os.path.join(gen, "history_lemma.rs")
+        open(p, "w").write(text)
+        r = vlib.run_verus(p)
+        r.update(name="history_lemma.rs (generated from contracts/ops.toml, %d operations)" % len(ops),
+                 dropped="nothing of /repo: this is a lemma over the contract table, not over code",
+                 assumed=["Rust ownership: an operation needs a handle, a handle is an owner or borrowed from one",
+                          "each operation satisfies its contract (discharged by the Kani obligations of this property)"])
+        res.append(r)
+    return res
